@@ -45,6 +45,69 @@ pub fn gen_bnf(rng: &mut Rng, o: &BnfOpts) -> AG {
     AG { terms, rules }
 }
 
+/// "Big" family: 10-44 non-terminals, 20-60 terminals with three-character texts (`k07`), every alternative led by a
+/// terminal that is distinct within its rule (epsilon-free LL(1), hence conflict-free LR), plus left-recursive lists
+/// with a dedicated separator and a few nullable tails. Tables with hundreds of states and wide rows, sentences of
+/// dozens of tokens - the sizes small random BNF never reaches.
+pub fn gen_big(rng: &mut Rng) -> AG {
+    let nn = rng.range(10, 44);
+    let nt = (nn * 2 + rng.range(0, 10)).min(60);
+    let terms: Vec<Term> = (0..nt).map(|i| Term { name: format!("t{:02}", i), rec: Rec::Lit(format!("k{:02}", i)), meta: Meta::default() }).collect();
+    let alt = |syms: Vec<Sym>| Alt { syms, meta: Meta::default() };
+    let mut rules: Vec<Rule> = (0..nn).map(|i| Rule { name: if i == 0 { "S".to_string() } else { format!("N{:02}", i) }, alts: vec![], meta: Meta::default() }).collect();
+    let mut next_sep = 0usize; // separators are taken from the front of the terminal list and never lead an alternative
+    let nsep = (nn / 4).max(1);
+    for i in 0..nn {
+        if i > 0 && next_sep < nsep && rng.chance(0.25) && i + 1 < nn {
+            // left-recursive list over a later non-terminal with its own separator
+            let item = rng.range(i + 1, nn - 1);
+            let sep = next_sep;
+            next_sep += 1;
+            rules[i].alts.push(alt(vec![Sym::N(i), Sym::T(sep), Sym::N(item)]));
+            rules[i].alts.push(alt(vec![Sym::N(item)]));
+            continue;
+        }
+        let na = rng.range(2, 4);
+        let mut leads: Vec<usize> = vec![];
+        for a in 0..na {
+            let mut lead = rng.range(nsep, nt - 1);
+            while leads.contains(&lead) {
+                lead = rng.range(nsep, nt - 1);
+            }
+            leads.push(lead);
+            let mut syms = vec![Sym::T(lead)];
+            if a > 0 {
+                // alternative 0 stays terminal-only (productivity); the others refer to other rules, mostly later ones
+                for _ in 0..rng.range(0, 4) {
+                    if rng.chance(0.55) {
+                        let k = if rng.chance(0.8) && i + 1 < nn { rng.range(i + 1, nn - 1) } else { rng.below(nn) };
+                        syms.push(Sym::N(k));
+                    } else {
+                        syms.push(Sym::T(rng.range(nsep, nt - 1)));
+                    }
+                }
+            } else if rng.chance(0.5) {
+                syms.push(Sym::T(rng.range(nsep, nt - 1)));
+            }
+            rules[i].alts.push(alt(syms));
+        }
+        if rng.chance(0.08) {
+            rules[i].alts.push(alt(vec![]));
+        }
+    }
+    // reachability: every rule is referred to from an earlier one
+    for i in 1..nn {
+        let referred = rules[..i].iter().any(|r| r.alts.iter().any(|a| a.syms.contains(&Sym::N(i))));
+        if !referred {
+            let j = rng.below(i);
+            let lead_free: Vec<usize> = (nsep..nt).filter(|t| !rules[j].alts.iter().any(|a| a.syms.first() == Some(&Sym::T(*t)))).collect();
+            let lead = if lead_free.is_empty() { nsep } else { lead_free[rng.below(lead_free.len())] };
+            rules[j].alts.push(alt(vec![Sym::T(lead), Sym::N(i)]));
+        }
+    }
+    AG { terms, rules }
+}
+
 /// "Context" family: a few shared non-terminals (unit chains down to a nullable or
 /// non-nullable leaf) used under several prefixes and followers. Finite languages whose
 /// LALR automata need look-aheads to travel through merges and several closure hops —
